@@ -1469,14 +1469,21 @@ def call_model(M,st,fr,callee,args):
         it=deref(args[0])
         if it.pos<len(it.items): it.pos+=1; return some(it.items[it.pos-1])
         return NONE()
-    m=re.match(r'^<str as Index<std::ops::(Range|RangeFrom)<usize>>>::index$',c)
+    m=re.match(r'^<(?:str|String) as Index<(?:std::ops::|core::ops::)?(Range|RangeFrom|RangeTo|RangeInclusive|RangeToInclusive|RangeFull)(?:<usize>)?>>::index$',c)
     if m:
-        sv=deref(args[0]); r=args[1]; lo=r.f[0].v; hi=r.f[1].v if m.group(1)=='Range' else len(sv.b)
-        n=len(sv.b)
+        sv=deref(args[0]); r=args[1]; kind_=m.group(1); n=len(sv.b)
+        if kind_!='RangeFull' and not all(x.conc() for x in r.f if isinstance(x,Int)): raise Unsupported('str slice with symbolic bounds')
+        if kind_=='Range': lo,hi=r.f[0].v,r.f[1].v
+        elif kind_=='RangeFrom': lo,hi=r.f[0].v,n
+        elif kind_=='RangeTo': lo,hi=0,r.f[0].v
+        elif kind_=='RangeToInclusive': lo,hi=0,r.f[0].v+1
+        elif kind_=='RangeInclusive': lo,hi=r.f[0].v,r.f[1].v+1
+        else: lo,hi=0,n
+        m=re.match(r'(Range|RangeFrom)',kind_) or m
         if has_num(sv.b):
             k=[i for i,x in enumerate(sv.b) if is_num(x)][0]
-            if m.group(1)=='RangeFrom' and lo<=k and k==n-1: return Str(sv.b[lo:])
-            if m.group(1)=='Range' and hi<=k: return Str(sv.b[lo:hi])
+            if hi==n and lo<=k and k==n-1: return Str(sv.b[lo:])
+            if hi<=k: return Str(sv.b[lo:hi])
             raise Unsupported('slice boundary inside/after NUM segment')
         if lo>hi or hi>n: raise Panic(f'str index {lo}..{hi} out of range (len {n})')
         okc=z3.simplify(z3.And(utf8_boundary(sv.b,lo),utf8_boundary(sv.b,hi)))
